@@ -138,8 +138,10 @@ static int text_finite(const char *t)
 /* mid-utterance: the exported text must say what the normalisation state currently is */
 static void cmn_text_cb(decoder_t *d, void *user, long fed, long frames)
 {
-    const char *t = decoder_get_cmn(d, 0); cmn_t *cm = d->acmod->fcb->cmn_struct; int k = 0; const char *p;
-    (void)user; (void)fed; (void)frames;
+    int upd = user ? vh_chance((vh_rng *)user, 0.3) : 0;   /* update = TRUE: the estimate is brought up to date first (a documented use) */
+    const char *t = decoder_get_cmn(d, upd); cmn_t *cm = d->acmod->fcb->cmn_struct; int k = 0; const char *p;
+    (void)fed; (void)frames;
+    if (upd) vh_count("cmn_exports_with_update_requested", 1);
     if (!t || !cm) return;
     if (!text_finite(t)) { vh_viol("cmn_state_not_finite|mid_utterance", "exported mid-utterance: %s", t); return; }
     for (p = t; *p && k < cm->veclen; ++k) {
@@ -152,7 +154,7 @@ static void cmn_text_cb(decoder_t *d, void *user, long fed, long frames)
 
 static void run_dec(long i, vh_rng *r)
 {
-    vd_cfg cfg; decoder_t *d; vd_audio a; vd_pattern p; vd_runinfo info; vd_result res; int kind = (int)vh_below(r, NSIG), use_float = vh_chance(r, 0.3), lang = vh_chance(r, 0.1) ? VD_FR : VD_EN;
+    vd_cfg cfg; decoder_t *d; vd_audio a; vd_pattern p; vd_runinfo info; vd_result res; vh_rng cbr; int kind = (int)vh_below(r, NSIG), use_float = vh_chance(r, 0.3), lang = vh_chance(r, 0.1) ? VD_FR : VD_EN;
     long n, maxn = vh_tier ? (vh_chance(r, 0.05) ? 4800000 : 480000) : (vh_chance(r, 0.05) ? 960000 : 160000);
     const char *gram = lang == VD_FR ? "#JSGF V1.0; grammar g; public <a> = ( avance | recule | de | dix | un )+ ;" : "#JSGF V1.0; grammar g; public <a> = ( go | forward | ten | meters | a | stop )+ ;";
     vd_cfg_default(&cfg, lang); cfg.compallsen = vh_chance(r, 0.7); cfg.cmn = VH_PICK(r, ((const char *[]){ "live", "batch", "batch", "none" }));
@@ -175,7 +177,8 @@ static void run_dec(long i, vh_rng *r)
     /* the scores the search actually uses (hook H1), also when only the active senones are computed: every computed score is a cost >= 0
      * and the best of them is exactly 0 */
     g_tap_bad = 0; g_tap_frames = 0; g_tap_sig = sig_name[kind]; ssv_senscr_tap_user = d->acmod; ssv_senscr_tap = score_tap;
-    if (vd_run(d, &a, r, &p, cmn_text_cb, NULL, &info) != 0) { ssv_senscr_tap = NULL; vh_viol("utterance_call_failed", "start %d end %d on adversarial audio (%s)", info.start_ret, info.end_ret, sig_name[kind]); goto out; }
+    vh_rng_init(&cbr, vh_next(r), 7);
+    if (vd_run(d, &a, r, &p, cmn_text_cb, &cbr, &info) != 0) { ssv_senscr_tap = NULL; vh_viol("utterance_call_failed", "start %d end %d on adversarial audio (%s)", info.start_ret, info.end_ret, sig_name[kind]); goto out; }
     /* a second pass with few senones active (forced alignment) goes through the same scorer */
     if (vh_chance(r, 0.5)) { vh_ctx("decoder_alignment"); (void)decoder_alignment(d); }
     ssv_senscr_tap = NULL;
@@ -196,7 +199,9 @@ static void run_dec(long i, vh_rng *r)
     vd_result_free(&res);
     /* channel normalisation state */
     {
-        const char *c1 = decoder_get_cmn(d, 0);
+        int upd = vh_chance(r, 0.5);   /* with update = TRUE the estimate is recomputed from whatever the utterance accumulated, possibly nothing */
+        const char *c1 = decoder_get_cmn(d, upd);
+        if (upd) vh_count("cmn_exports_with_update_requested", 1);
         if (c1) {
             char first[600], second[600];
             snprintf(first, sizeof(first), "%s", c1);
@@ -230,9 +235,10 @@ static void run_dec(long i, vh_rng *r)
     {
         long nr; const int16_t *rec = vd_recording(lang == VD_FR ? 1 : 0, &nr); vd_audio na; vd_pattern np; vd_runinfo ni; const char *h; int32 sc;
         na.s = (int16_t *)rec; na.n = nr; na.samprate = 16000; memset(&np, 0, sizeof(np));
-        decoder_set_cmn(d, "40,3,-1");
+        int keep = vh_chance(r, 0.35);   /* the state the adversarial utterance left behind is used as it is: only finiteness is judged then */
+        if (!keep) decoder_set_cmn(d, "40,3,-1"); else vh_count("normal_utterances_on_the_left_over_cmn_state", 1);
         if (vd_run(d, &na, r, &np, NULL, NULL, &ni) != 0) vh_viol("normal_utterance_failed_afterwards", "a normal utterance after %s failed", sig_name[kind]);
-        else { h = decoder_hyp(d, &sc); if (!h) vh_viol(vh_path("normal_utterance_no_result_afterwards|%s|cmn_%s", sig_name[kind], cfg.cmn), "no hypothesis for the bundled recording after an utterance of %s", sig_name[kind]); else if (sc > 0) vh_viol("path_score_out_of_range|normal", "score %d", sc); { const char *c2 = decoder_get_cmn(d, 0); if (c2 && !text_finite(c2)) vh_viol(vh_path("cmn_state_not_finite_afterwards|cmn_%s", cfg.cmn), "CMN state after the following normal utterance: %s", c2); } vh_count("normal_utterances_afterwards", 1); }
+        else { h = decoder_hyp(d, &sc); if (!h && keep) ; else if (!h) vh_viol(vh_path("normal_utterance_no_result_afterwards|%s|cmn_%s", sig_name[kind], cfg.cmn), "no hypothesis for the bundled recording after an utterance of %s", sig_name[kind]); else if (sc > 0) vh_viol("path_score_out_of_range|normal", "score %d", sc); { const char *c2 = decoder_get_cmn(d, 0); if (c2 && !text_finite(c2)) vh_viol(vh_path("cmn_state_not_finite_afterwards|cmn_%s", cfg.cmn), "CMN state after the following normal utterance: %s", c2); } vh_count("normal_utterances_afterwards", 1); }
     }
     vh_count("decoder_runs", 1); vh_max("max_audio_seconds", n / 16000);
     vh_nontrivial("dec/%d/%ld/%s/%d%d%d", kind, n, cfg.cmn, p.full_utt, p.no_search_chunks, use_float);
